@@ -18,6 +18,7 @@ import nfc.llcp.err
 
 PID = "C09"
 CAUSES = ("disc", "none", "term", "ioerr")
+DISRUPTIONS = ("broken", "xmit", "proto", "garbage")
 
 
 class Ctx(object):
@@ -505,6 +506,13 @@ def run(tier, seed):
     quick = tier == "quick"
     jobs = []
     cuts = (0, 2, 5, 9) if quick else (0, 1, 2, 3, 4, 5, 6, 7, 9, 12)
+    # the other concrete forms of "link disruption" (every CommunicationError subclass, undecodable octets): same
+    # scenarios, fewer schedules each
+    for progs in SCENARIOS_QUICK:
+        for cause in DISRUPTIONS:
+            for cut in ((2, 5) if quick else (0, 2, 5, 9)):
+                jobs.append(("target", progs, cause, cut, 10 if quick else 100))
+                jobs.append(("rand", progs, cause, cut, seed * 7919 + cut))
     for progs in SCENARIOS_QUICK:
         for cause in CAUSES:
             for cut in cuts:
